@@ -2,20 +2,24 @@ import Sudachi.Model.Build
 /-!
 # Line protocol of the dictionary-compiler model (C06)
 
-`C06 build idx=<n> v=<5 bits d1..d5> rf=<cur|fix> nd=<code points> user=<-|numSystem,maxLeft,maxRight>
-   upos=<pos;…> usys=<word;…> ops=<op>|<op>|… desc=<n> trie=<n> ks=<-|all|n,…>`
+`C06 build idx=<n> v=<5 bits d1..d5> rf=<cur|fix> fx=<5 bits n1 n3 s4 s5 s6> nd=<code points>
+   user=<-|numSystem,maxLeft,maxRight> upos=<pos;…> usys=<word;…> ops=<op>|<op>|… desc=<n> trie=<n> ks=<-|all|n,…>`
 
 * `rf` = handling of the builder's `resolved` flag (`cur`: only `resolve` sets it; `fix`:
-  `read_lexicon` clears it);
-* an op is one call on the builder, in order: `C<hex of the matrix text>` = `read_conn`, `R` =
-  `resolve`, `L<-|line of the csv failure>!<line,…>!<rec;…>` = `read_lexicon` (the records the csv
+  `read_lexicon` clears it); `fx` = which of the repairs N1, N3, S4, S5, S6 are present;
+* an op is one call on the builder, in order: `C<hex of the matrix text>` = `read_conn(..)?`,
+  `I<hex>` = `let _ = read_conn(..)` (an `Err` is ignored), `R` = `resolve`,
+  `L<-|line of the csv failure>!<line,…>!<rec;…>` = `read_lexicon` (the records the csv
   reader delivered with their line numbers);
 * a record is `h<hex>:h<hex>:…` (one item per field, hex of the UTF-8 bytes);
 * a POS row is six such items; a system word is `h<surface>:<pos id>:<n|r<hex reading>>`;
 * `ks` lists sink limits (bytes the sink accepts before failing) to try after the unlimited run;
   `all` = every limit from 0 to the output length + 1.  The answer is the unlimited outcome (a
-  failure before `compile` is followed by `#<position of the failing op>`) followed by
-  ` sink=<outcome>*<count>,…` (run-length encoded in the order of the limits).
+  failure before `compile` is followed by `#<position of the failing op>`), then
+  ` ign=<result>,…` (the results of the ignored calls that were made) when there is an `I` op,
+  followed by ` sink=<outcome>*<count>,…` (run-length encoded in the order of the limits).
+  A success reports the written matrix as `mx=<cells that are not 0>:<Σ (index+1)·cost mod 1000003>`
+  (cost as the unsigned 16-bit value stored).
 -/
 namespace Build
 
@@ -86,18 +90,21 @@ def sysWord? (s : List Char) : Option SysWord :=
 def optNat? (s : List Char) : Option (Option Nat) :=
   if s = ['-'] then some none else (Wire.nat? s).map some
 
-def variant? (s rf : List Char) : Option Variant :=
-  match s with
-  | [a, b, c, d, e] =>
-    if rf = ['c', 'u', 'r'] then some ⟨a = '1', b = '1', c = '1', d = '1', e = '1', false⟩
-    else if rf = ['f', 'i', 'x'] then some ⟨a = '1', b = '1', c = '1', d = '1', e = '1', true⟩
+def variant? (s rf fx : List Char) : Option Variant :=
+  match s, fx with
+  | [a, b, c, d, e], [n1, n3, s4, s5, s6] =>
+    if rf = ['c', 'u', 'r'] then
+      some ⟨a = '1', b = '1', c = '1', d = '1', e = '1', false, n1 = '1', n3 = '1', s4 = '1', s5 = '1', s6 = '1'⟩
+    else if rf = ['f', 'i', 'x'] then
+      some ⟨a = '1', b = '1', c = '1', d = '1', e = '1', true, n1 = '1', n3 = '1', s4 = '1', s5 = '1', s6 = '1'⟩
     else none
-  | _ => none
+  | _, _ => none
 
 def op? (s : List Char) : Option Op :=
   match s with
   | ['R'] => some .resolve
   | 'C' :: h => (Wire.hexBytes? h).map (fun bs => .conn ((splitLines bs).map utf8Strict))
+  | 'I' :: h => (Wire.hexBytes? h).map (fun bs => .connIgn ((splitLines bs).map utf8Strict))
   | 'L' :: r =>
     match Wire.splitOn '!' r with
     | [ce, lines, recs] =>
@@ -124,15 +131,40 @@ def showKind : ErrKind → String
 def showStage : Stage → String
   | .conn => "conn" | .lex => "lex" | .resolve => "resolve" | .compile => "compile"
 
+/-- the writes that are still visible: the most recent one of every cell -/
+def finalCells : List (Nat × Int) → List (Nat × Int)
+  | [] => []
+  | p :: ps => p :: (finalCells ps).filter (fun q => q.1 != p.1)
+
+/-- the cost as the unsigned 16-bit value stored in the buffer -/
+def u16OfCost (c : Int) : Nat := (c % 65536).toNat
+
+/-- digest of the matrix content: number of cells that are not 0, weighted sum of the cells -/
+def matrixDigest (c : Conn) : String :=
+  let fin := (finalCells c.cells).map (fun p => (p.1, u16OfCost p.2))
+  toString (fin.filter (fun p => p.2 != 0)).length ++ ":"
+    ++ toString ((fin.foldl (fun acc p => acc + (p.1 + 1) * p.2) 0) % 1000003)
+
 def showOutcome (base : Base) : Outcome → String
   | .ok n cnt d =>
     "ok len=" ++ toString n ++ " res=" ++ toString cnt ++ " words=" ++ toString d.entries.length
       ++ " pos=" ++ toString (d.pos.length - base.pos0.length)
       ++ " dims=" ++ toString d.conn.nl ++ "x" ++ toString d.conn.nr
+      ++ " mx=" ++ matrixDigest d.conn
   | .err s .Io _ => "err:Io@" ++ showStage s
   | .err s k l => "err:" ++ showKind k ++ ":" ++ toString l ++ "@" ++ showStage s
   | .panic _ .nulKey => "NULKEY"
   | .panic s _ => "PANIC@" ++ showStage s
+
+def showRes : Res Unit → String
+  | .ok () => "ok"
+  | .err .Io _ => "err:Io"
+  | .err k l => "err:" ++ showKind k ++ ":" ++ toString l
+  | .panic _ => "PANIC"
+
+def Op.isIgn : Op → Bool
+  | .connIgn _ => true
+  | _ => false
 
 def shortOutcome : Outcome → String
   | .ok n _ _ => "ok:" ++ toString n
@@ -169,18 +201,20 @@ def handle (toks : List (List Char)) : String :=
   let g := fun k => Wire.kv? toks k
   match g "v", g "rf", g "nd", g "user", g "upos", g "usys", g "ops" with
   | some v, some rf, some nd, some user, some upos, some usys, some ops =>
-    match g "desc", g "trie", g "ks" with
-    | some desc, some trie, some ks =>
-      match variant? v rf, Wire.natList? nd, base? user upos usys, ops? ops with
+    match g "desc", g "trie", g "ks", g "fx" with
+    | some desc, some trie, some ks, some fx =>
+      match variant? v rf fx, Wire.natList? nd, base? user upos usys, ops? ops with
       | some v, some nd, some base, some ops =>
         match Wire.nat? desc, Wire.nat? trie with
         | some desc, some trie =>
           let inp : Input := { base := base, ops := ops, descLen := desc, trieLen := trie }
           let x : Ext := ⟨nd.map Char.ofNat⟩
+          let ign := if ops.any Op.isIgn then
+              " ign=" ++ Wire.joinWith "," ((ignTrace v x (Builder.init v base, 0) ops).map showRes) else ""
           match prepare v x inp with
           | .error f =>
             let o := f.toOutcome
-            let head := showOutcome base o ++ "#" ++ toString (failIdx v x (Builder.init base, 0) ops 0)
+            let head := showOutcome base o ++ "#" ++ toString (failIdx v x (Builder.init v base, 0) ops 0) ++ ign
             (match limits? ks o with
             | none => "bad-op"
             | some [] => head
@@ -189,12 +223,12 @@ def handle (toks : List (List Char)) : String :=
             let o := finish v p desc trie none
             match limits? ks o with
             | none => "bad-op"
-            | some [] => showOutcome base o
+            | some [] => showOutcome base o ++ ign
             | some l =>
-              showOutcome base o ++ " sink=" ++ rle (l.map (fun k => shortOutcome (finish v p desc trie (some k))))
+              showOutcome base o ++ ign ++ " sink=" ++ rle (l.map (fun k => shortOutcome (finish v p desc trie (some k))))
         | _, _ => "bad-op"
       | _, _, _, _ => "bad-op"
-    | _, _, _ => "bad-op"
+    | _, _, _, _ => "bad-op"
   | _, _, _, _, _, _, _ => "bad-op"
 
 end Build
